@@ -10,6 +10,7 @@ NOT_APPLICABLE = {
 }
 
 PARSE = M + "/parse"
+SW = [M, M + "/ptrify", M + "/common", M + "/transform", M + "/parse", "strings", "unicode/utf8", "strconv", "go/token"]
 CORE = [M + "/ptrify", M + "/common", "strings", "unicode/utf8", "strconv", "go/token"]
 
 CHECKS = {
@@ -25,6 +26,22 @@ CHECKS = {
     "C07": {"runs": [
         {"entry": M + ".HarnessC07Quick", "pkgs": CORE, "must_reach": ["c07-end"], "instrument": [M], "validate": 0},
         {"entry": M + ".HarnessC07Second", "pkgs": CORE, "must_reach": ["c07-end"], "instrument": [M], "validate": 0},
+    ]},
+    "C08": {"runs": [
+        {"entry": M + ".HarnessC08Quick", "pkgs": CORE, "must_reach": ["c08-end"], "instrument": [M], "validate": 0},
+        {"entry": M + ".HarnessC08Seq2", "pkgs": CORE, "must_reach": ["c08-end"], "instrument": [M], "validate": 0},
+        {"entry": M + ".HarnessC08DoubleUnregister", "pkgs": CORE, "must_reach": ["c08-double-unreg-end"], "instrument": [M], "validate": 0},
+        {"entry": M + ".HarnessC08LateCalls", "pkgs": CORE, "must_reach": ["c08-late-end"], "instrument": [M], "validate": 0},
+        {"entry": M + ".HarnessC08BlockedCallback", "pkgs": CORE, "must_reach": ["c08-blocked-end"], "instrument": [M], "validate": 0, "tiers": ["thorough"]},
+    ]},
+    "C09": {"runs": [
+        {"entry": M + ".HarnessC09Quick", "pkgs": CORE, "must_reach": ["c09-end"], "instrument": [M], "validate": 0},
+        {"entry": M + ".HarnessC09NoWatcher", "pkgs": CORE, "must_reach": ["c09-end"], "instrument": [M], "validate": 0},
+    ]},
+    "C20": {"runs": [
+        {"entry": M + "/sourcewrap.HarnessC20TransformStatic", "pkgs": SW, "must_reach": ["c20-static-end"], "instrument": [M, M + "/sourcewrap"], "validate": 0},
+        {"entry": M + "/sourcewrap.HarnessC20TransformWatch", "pkgs": SW, "must_reach": ["c20-watch-end"], "instrument": [M, M + "/sourcewrap"], "validate": 0},
+        {"entry": M + "/sourcewrap.HarnessC20Blank", "pkgs": SW, "must_reach": ["c20-blank-end", "c20-blank-done"], "instrument": [M, M + "/sourcewrap"], "validate": 0},
     ]},
     "C05": {"runs": [
         {"entry": M + ".HarnessC05Quick", "pkgs": CORE, "must_reach": ["c05-end"], "instrument": [M], "validate": 0},
